@@ -17,6 +17,7 @@ ASSUMPTIONS = [
     "the empty string is not an identifier in any dialect (and the library treats an empty alias as 'no alias'): names have length >= 1",
     "Oracle cannot represent a double quote inside an identifier at all: those instances are outside the domain (SKIP)",
     "returning('*') is the documented star shorthand, not a column called *",
+    "site 21 (FOR UPDATE OF) hashes the name (dict.fromkeys): names there range over the 7-character HASH_ALPHABET only",
 ]
 
 PROBE = "PrObE"
@@ -113,8 +114,17 @@ def build(site, d, nm):
     raise AssertionError(site)
 
 
+HASH_ALPHABET = "a\"`'. é"
+
+
 def check(site, d, nm, name):
     q = qchar(d)
+    if site == 21:
+        # for_update(of=...) de-duplicates the names through a dict: hashing a symbolic string enumerates it, so this
+        # site ranges over the strings of a small alphabet (letter, the three quote characters, dot, space, non-ASCII)
+        for ch in nm:
+            if ch not in HASH_ALPHABET:
+                return SKIP
     if d == 5 and q in nm:
         return SKIP
     if site == 12 and nm == "*":
